@@ -458,6 +458,44 @@ func (h *harness) applySwitches(t []string) string {
 		if st == 429 {
 			h.flag("rate-limit-unexpected", p.name)
 		}
+		// a disabled API refuses (the switch as documented; an unset switch has its documented default)
+		on := func(v string, dflt bool) bool {
+			if v == "n" {
+				return dflt
+			}
+			return v == "t"
+		}
+		refusedBy := ""
+		switch p.name {
+		case "mput", "bpost", "upatch", "uget":
+			if !on(h.cur.push, true) {
+				refusedBy = "push"
+			}
+		case "mdel":
+			if !on(h.cur.del, false) {
+				refusedBy = "delete"
+			}
+		case "bdel":
+			if !on(h.cur.del, false) || !on(h.cur.bdel, false) {
+				refusedBy = "delete/blob-delete"
+			}
+		case "ref":
+			if !on(h.cur.ref, true) {
+				refusedBy = "referrers"
+			}
+		}
+		if refusedBy != "" && st != 405 && st != 404 {
+			h.flag("switch-off-refuses", fmt.Sprintf("%s answered %d although %s is off (%s)", p.name, st, refusedBy, h.cur))
+		}
+		if refusedBy == "" && (st == 405 || (st == 404 && out[4:5] == "-" && p.method != "HEAD")) {
+			switch p.name {
+			case "mput", "bpost", "upatch", "uget", "mdel", "bdel", "ref":
+				h.flag("switch-on-serves", fmt.Sprintf("%s answered %s although its switches are on (%s)", p.name, out, h.cur))
+			}
+		}
+		if on(h.cur.ro, false) && (p.name == "mput" || p.name == "bpost" || p.name == "mdel" || p.name == "bdel") && st < 400 {
+			h.flag("read-only-denies-writes", fmt.Sprintf("%s answered %d on read-only storage (%s)", p.name, st, h.cur))
+		}
 		switch p.name {
 		case "ping", "bhead", "tags", "mget", "mhead":
 			if st != 200 {
